@@ -248,6 +248,24 @@ pub fn c13(t: &dyn TypeOps, cx: &mut Cx, dmax: usize) {
             if execs > 300_000 { cx.count("capped_values", 1); break; }
         }
         cx.count(&format!("scripts_D{}", dmax), execs);
+        // real sinks: a buffered file on a full device (the error surfaces when the buffer is
+        // flushed) and a path that cannot be created
+        if vi == 0 {
+            cx.evals += 2;
+            cx.transitions += 2;
+            let r = t.store(i, "/dev/full");
+            cx.outcome(&format!("dev-full-{}", r.class()));
+            match &r {
+                Out::Err(e) if e == "WriteError" => {}
+                o => cx.violate(&format!("store-to-full-device-{}", if matches!(o, Out::Ok(_)) { "reports-success".to_string() } else { o.class() }), json!({"value": vdesc(i, &want), "observed": o.describe()})),
+            }
+            let r = t.store(i, crate::checks3::scratch());
+            cx.outcome(&format!("dir-path-{}", r.class()));
+            match &r {
+                Out::Err(e) if e.starts_with("FileOpenError") => {}
+                o => cx.violate(&format!("store-to-directory-{}", if matches!(o, Out::Ok(_)) { "reports-success".to_string() } else { o.class() }), json!({"value": vdesc(i, &want), "observed": o.describe()})),
+            }
+        }
         if vi == 0 { cx.sample(json!({"type": cx.type_id, "value": format!("{:?}", want), "scripts_explored": execs, "deviation_bound": dmax})); }
     }
 }
